@@ -15,27 +15,27 @@ def isByte (b : Nat) : Prop := b < 256
 /-- every EByte packet is exactly 13 bytes (after the repair `960072e`: short frames are zero padded) -/
 theorem C06_ebyte_13 (id : Nat) (data : Bytes) (h : data.length ≤ 8) :
     (encodeEbyte id data).length = 13 := by
-  sorry
+  exact encodeEbyte_length id data h
 
 /-- EByte round trip: the decoder recovers exactly the identifier's fields and the data bytes -/
 theorem C06_ebyte_rt (id : Nat) (data : Bytes) (hid : id < 2^32) (h : data.length ≤ 8) :
     decodeTcp (encodeEbyte id data) = .ok (frameOfId id data) := by
-  sorry
+  exact decodeTcp_encodeEbyte id data hid h
 
 /-- every USB packet is exactly 20 bytes -/
 theorem C06_usb_20 (id : Nat) (data : Bytes) (h : data.length ≤ 8) :
     (encodeUsb id data).length = 20 := by
-  sorry
+  exact encodeUsb_length id data h
 
 /-- its last byte is the checksum of bytes 2..18 -/
 theorem C06_usb_checksum_valid (id : Nat) (data : Bytes) (h : data.length ≤ 8) :
     (encodeUsb id data).getD 19 0 = checksum (encodeUsb id data) := by
-  sorry
+  exact encodeUsb_checksum id data h
 
 /-- USB round trip -/
 theorem C06_usb_rt (id : Nat) (data : Bytes) (hid : id < 2^32) (h : data.length ≤ 8) :
     decodeUsb (encodeUsb id data) = .ok (frameOfId id data) := by
-  sorry
+  exact decodeUsb_encodeUsb id data hid h
 
 /-- the checksum exposes ANY single corrupted byte among the 18 checked positions (2..19), for every
 one of the 255 wrong values: such a packet is never decoded. Stated for every well-formed 20-byte
@@ -45,26 +45,26 @@ theorem C06_usb_single_corruption (pkt : Bytes) (hl : pkt.length = 20)
     (hc : pkt.getD 19 0 = checksum pkt)
     (i : Nat) (hi : 2 ≤ i ∧ i ≤ 19) (v : Nat) (hv : v < 256) (hne : v ≠ pkt.getD i 0) :
     decodeUsb (pkt.set i v) = .none := by
-  sorry
+  exact usb_single_corruption pkt hl h0 h1 hb hc i hi v hv hne
 
 /-- a Yacht Devices packet is one line: CR LF at the end and nowhere else -/
 theorem C06_yd_line (id : Nat) (data : Bytes) :
     ∃ body, encodeYd id data = body ++ ['\r', '\n'] ∧ '\r' ∉ body ∧ '\n' ∉ body := by
-  sorry
+  exact yd_line id data
 
 /-- Yacht Devices round trip, once the gateway's `hh:mm:ss.mmm R|T` token is prepended -/
 theorem C06_yd_rt (id : Nat) (data : Bytes) (hid : id < 2^32) (hd : 1 ≤ data.length)
     (hb : ∀ b ∈ data, b < 256) (ts dir : List Char) (hts : validHms ts = true) (hsp : ' ' ∉ ts)
     (hne : ts ≠ []) (hdir : dir = ['R'] ∨ dir = ['T']) :
     decodeYd (ts ++ [' '] ++ dir ++ [' '] ++ (encodeYd id data).dropLast.dropLast) = .ok (frameOfId id data) := by
-  sorry
+  exact yd_rt id data hid hd hb ts dir hts hsp hne hdir
 
 /-- Actisense round trip, once the `A<sec>.<ms>` token is prepended (whole payload, any length ≥ 1) -/
 theorem C06_actisense_rt (prio dst src pgn : Nat) (data : Bytes) (hp : prio < 16) (hd : dst < 256)
     (hs : src < 256) (hg : pgn < 2^24) (hl : 1 ≤ data.length) (hb : ∀ b ∈ data, b < 256) :
     decodeActisense ("A000001.000 ".toList ++ encodeActisense prio dst src pgn data) =
       .ok { pgn := pgn, prio := prio, src := src, dst := dst, data := data } := by
-  sorry
+  exact actisense_rt prio dst src pgn data hp hd hs hg hl hb
 
 /-- a concatenation of fixed-size packets is split back into the same packets by cutting every 13
 (EByte: `readexactly(13)`) resp. 20 bytes -/
@@ -74,7 +74,12 @@ def cut (n : Nat) : Nat → Bytes → List Bytes
 
 theorem C06_split_fixed (n : Nat) (ps : List Bytes) (h : ∀ p ∈ ps, p.length = n) :
     cut n ps.length ps.flatten = ps := by
-  sorry
+  induction ps with
+  | nil => rfl
+  | cons p ps ih =>
+    have hp : p.length = n := h p (by simp)
+    simp only [List.length_cons, List.flatten_cons, cut]
+    rw [← hp, List.take_left, List.drop_left, hp, ih (fun q hq => h q (by simp [hq]))]
 
 -- non-vacuity
 example : decodeTcp (encodeEbyte 0x19F80123 [1, 2, 3]) = .ok (frameOfId 0x19F80123 [1, 2, 3]) := by decide +kernel
